@@ -153,42 +153,7 @@ def run(fx, tier):
                         key='C10:R-FLOW:config-writer:%s<-%s::%s' % (tgt['n'], f.cls, f.n), where='%s:%s' % (f.path_file(), l_))
     if n_cw < 5:
         raise AnalysisBroken('only %d writes to the configuration members of mqtt_ctx found' % n_cw)
-    # the configuration survives cancel()/async_disconnect(): both install dup() of the service, i.e. a chain
-    # of copy constructors; every configured input of the CONNECT must be copied, negotiated state must not
-    CONFIG = ('creds', 'will_msg', 'keep_alive', 'co_props', 'authenticator')
-    n_copy = 0
-    for f in fx.fns:
-        if f.d.get('ctor') and f.cls == 'mqtt_ctx' and len(f.params) == 1 and f.params[0].get('tcls') == 'mqtt_ctx':
-            n_copy += 1
-            v.saw(f)
-            inits = {i_.get('field'): i_.get('init') for i_ in f.d.get('inits', [])}
-            for fld in CONFIG:
-                ini = inits.get(fld)
-                ok = ini is not None and contains(ini, lambda n: n.get('k') == 'mem' and n.get('n') == fld
-                                                  and isinstance(strip(n.get('b')), dict) and strip(n.get('b')).get('dk') == 'param')
-                v.check(ok, 'R-FLOW', 'mqtt_ctx copy constructor:%s [%s]' % (fld, f.tu),
-                        'a restarted client (dup of the service) keeps the configured %s' % fld,
-                        key='C10:R-FLOW:mqtt_ctx-copy:%s' % fld, where=f.file)
-            for fld in ('ca_props', 'state'):
-                ini = inits.get(fld)
-                fresh = ini is None or not contains(ini, lambda n: n.get('k') == 'ref' and n.get('dk') == 'param')
-                v.check(fresh, 'R-FLOW', 'mqtt_ctx copy constructor:%s [%s]' % (fld, f.tu),
-                        'negotiated state (%s) is not carried over to the new client' % fld,
-                        key='C10:R-FLOW:mqtt_ctx-copy:%s' % fld, where=f.file)
-        if f.d.get('ctor') and f.cls in ('stream_context', 'client_service') and len(f.params) == 1 \
-                and f.params[0].get('tcls') == f.cls:
-            v.saw(f)
-            inits = {i_.get('field'): i_.get('init') for i_ in f.d.get('inits', [])}
-            fld = '_mqtt_context' if f.cls == 'stream_context' else '_stream_context'
-            ini = inits.get(fld)
-            ok = ini is not None and contains(ini, lambda n: n.get('k') == 'mem' and n.get('n') == fld)
-            if f.cls == 'client_service':
-                ok = ok and any(callee_name(c) == 'clone_endpoints' for _, _, _, c in f.calls())
-            v.check(ok, 'R-FLOW', '%s copy constructor%s [%s]' % (f.cls, f.inst()[:25], f.tu),
-                    'dup() copies the context%s' % (' and the broker list' if f.cls == 'client_service' else ''),
-                    key='C10:R-FLOW:%s-copy' % f.cls, where=f.file)
-    if n_copy == 0:
-        raise AnalysisBroken('mqtt_ctx copy constructor not found')
+    config_copy_rule(fx, v, 'C10')
     # ... and the broker list: clone_endpoints → clone_servers → _servers = other._servers
     n_clone = 0
     for f in fx.fns:
@@ -493,3 +458,43 @@ def install_only_when_open_rule(fx, v, prop='C10'):
             v.check(ok, 'R-DOM', 'reconnect_op::(on_connect)%s:path%d [%s]' % (f.inst()[:25], pi, f.tu),
                     'new stream installed and success reported only when the handshake finished first, without error, '
                     'on an open client (%s)' % facts, key=prop + ':R-DOM:on_connect:swap-edge', where=f.file)
+
+
+def config_copy_rule(fx, v, prop='C10'):
+    """shared with C17 (the CONNECT of a restarted client still says what the user configured)"""
+    # the configuration survives cancel()/async_disconnect(): both install dup() of the service, i.e. a chain
+    # of copy constructors; every configured input of the CONNECT must be copied, negotiated state must not
+    CONFIG = ('creds', 'will_msg', 'keep_alive', 'co_props', 'authenticator')
+    n_copy = 0
+    for f in fx.fns:
+        if f.d.get('ctor') and f.cls == 'mqtt_ctx' and len(f.params) == 1 and f.params[0].get('tcls') == 'mqtt_ctx':
+            n_copy += 1
+            v.saw(f)
+            inits = {i_.get('field'): i_.get('init') for i_ in f.d.get('inits', [])}
+            for fld in CONFIG:
+                ini = inits.get(fld)
+                ok = ini is not None and contains(ini, lambda n: n.get('k') == 'mem' and n.get('n') == fld
+                                                  and isinstance(strip(n.get('b')), dict) and strip(n.get('b')).get('dk') == 'param')
+                v.check(ok, 'R-FLOW', 'mqtt_ctx copy constructor:%s [%s]' % (fld, f.tu),
+                        'a restarted client (dup of the service) keeps the configured %s' % fld,
+                        key='%s:R-FLOW:mqtt_ctx-copy:%s' % (prop, fld), where=f.file)
+            for fld in ('ca_props', 'state'):
+                ini = inits.get(fld)
+                fresh = ini is None or not contains(ini, lambda n: n.get('k') == 'ref' and n.get('dk') == 'param')
+                v.check(fresh, 'R-FLOW', 'mqtt_ctx copy constructor:%s [%s]' % (fld, f.tu),
+                        'negotiated state (%s) is not carried over to the new client' % fld,
+                        key='%s:R-FLOW:mqtt_ctx-copy:%s' % (prop, fld), where=f.file)
+        if f.d.get('ctor') and f.cls in ('stream_context', 'client_service') and len(f.params) == 1 \
+                and f.params[0].get('tcls') == f.cls:
+            v.saw(f)
+            inits = {i_.get('field'): i_.get('init') for i_ in f.d.get('inits', [])}
+            fld = '_mqtt_context' if f.cls == 'stream_context' else '_stream_context'
+            ini = inits.get(fld)
+            ok = ini is not None and contains(ini, lambda n: n.get('k') == 'mem' and n.get('n') == fld)
+            if f.cls == 'client_service':
+                ok = ok and any(callee_name(c) == 'clone_endpoints' for _, _, _, c in f.calls())
+            v.check(ok, 'R-FLOW', '%s copy constructor%s [%s]' % (f.cls, f.inst()[:25], f.tu),
+                    'dup() copies the context%s' % (' and the broker list' if f.cls == 'client_service' else ''),
+                    key='%s:R-FLOW:%s-copy' % (prop, f.cls), where=f.file)
+    if n_copy == 0:
+        raise AnalysisBroken('mqtt_ctx copy constructor not found')
